@@ -1,4 +1,5 @@
 mod ast;
+mod cfgconv;
 mod chart;
 mod engine;
 mod ffref;
@@ -62,6 +63,10 @@ fn main() {
         "C06" => props::c06::C06,
         "C07" => props::c07::C07,
         "C08" => props::c07::C08,
+        "C09" => props::trans::C09,
+        "C10" => props::trans::C10,
+        "C11" => props::trans::C11,
+        "C12" => props::trans::C12,
     );
     std::process::exit(code);
 }
